@@ -1307,6 +1307,9 @@ def _code_to_slice__expr_arglikes(
             fst_ = code
             ast_ = codea
 
+            if codea_cls in (Yield, YieldFrom) and not fst_.pars().n:  # these need to be parenthesized definitely
+                fst_._parenthesize_grouping()
+
         else:  # is AST, make FST
             fst_ = code_as_expr(code, options, self.root._parse_params)
             ast_ = fst_.a
